@@ -567,8 +567,46 @@ def r23model(ctx: Ctx) -> RuleReport:
                         for x in ast.walk(r.value))
         rep.add(f'{noop.fq}: returns its argument unchanged', noop.loc(r), 'ok' if good else ('violation' if calls_inv else 'undecided'),
                 norm(r.value) if good else f'the no-op model returns {norm(r.value)}')
-    # alphanumeric_order
+    # alphanumeric_order: (name, number) with the number taken from the digits when the pattern matched
     an = repo.func(M, 'Model.alphanumeric_order')
+    try:
+        from ..resolve import symbolic_returns
+        paths = symbolic_returns(an)
+    except AnalysisError:
+        paths = []
+    rp = an.positional[1] if len(an.positional) > 1 else 'role'
+    key = f'{an.fq}: the key is (name without the number, number as an integer), name first'
+    if not paths:
+        rep.undecided(key, an.loc(), 'paths of the function could not be enumerated')
+    seen_match = seen_plain = False
+    for conds, val, st in paths:
+        if not (isinstance(val, ast.Tuple) and len(val.elts) == 2):
+            rep.undecided(key, an.loc(st), norm(val)[:60] if val is not None else 'None')
+            continue
+        a, b = norm(val.elts[0]).replace(' ', ''), norm(val.elts[1]).replace(' ', '')
+        matched = [c for c, pol in conds if pol and ('.match(' in norm(c) or '.fullmatch(' in norm(c) or '.search(' in norm(c))]
+        unmatched = [c for c, pol in conds if not pol and ('.match(' in norm(c) or '.fullmatch(' in norm(c) or '.search(' in norm(c))]
+        if matched:
+            seen_match = True
+            good = a.endswith('.group(1)') and b.startswith('int(') and b.endswith('.group(2))')
+            swapped = b.endswith('.group(1)') and a.startswith('int(') and a.endswith('.group(2))')
+            if good:
+                rep.ok(key + ' [numbered role]', an.loc(st))
+            elif swapped:
+                rep.violation(key + ' [numbered role]', an.loc(st), 'the key is (number, name): roles are ordered by their number before their name, so :ARG1 :op1 :ARG2 :op2 instead of :ARG1 :ARG2 :op1 :op2')
+            elif '.group(0)' in a or '.group()' in a:
+                rep.violation(key + ' [numbered role]', an.loc(st), f'the name part is {a[-12:]} - the whole role, digits included: :op10 sorts before :op2 again')
+            elif '.group(' in a or '.group(' in b:
+                rep.violation(key + ' [numbered role]', an.loc(st), f'the key is ({norm(val.elts[0])[-20:]}, {norm(val.elts[1])[-24:]}): name and number are not group 1 and int(group 2) of the split')
+            else:
+                rep.undecided(key + ' [numbered role]', an.loc(st), norm(val)[:70])
+        elif unmatched or not conds:
+            seen_plain = True
+            good = a == rp and try_fold(val.elts[1])[0] and isinstance(try_fold(val.elts[1])[1], int)
+            rep.add(key + ' [role without a number]', an.loc(st), 'ok' if good else ('violation' if b == rp else 'undecided'), norm(val)[:60])
+    if paths and not seen_match:
+        rep.violation(key + ' [numbered role]', an.loc(), 'no path of the function returns a key built from the split: numbered roles are compared as plain strings, so :op10 sorts before :op2')
+    # the pattern
     pats = []
     for n in walk_local(an.node):
         if isinstance(n, ast.Call) and isinstance(n.func, ast.Attribute) and n.func.attr in ('match', 'fullmatch', 'search'):
@@ -588,7 +626,17 @@ def r23model(ctx: Ctx) -> RuleReport:
         pv, n = pats[0]
         key = f'{an.fq}: the pattern splits <anything ending in a non-digit><digits>'
         try:
-            eq, only_code, only_doc = Lang.from_pattern(pv).equivalent(Lang.from_pattern(r'(.*\D)(\d+)$'))
+            got_l = Lang.from_pattern(pv)
+            meth = n.func.attr
+            from ..rx import ParsedPattern as _PP
+            _pp = _PP(pv)
+            _pp.alternatives()
+            anything = Lang.from_pattern(r'[\s\S]*')
+            if meth in ('match', 'search') and not getattr(_pp, 'has_end_assertion', False):
+                got_l = got_l.cat(anything)          # re.match / re.search accept a prefix when the pattern has no `$`
+            if meth == 'search' and not getattr(_pp, 'has_begin_assertion', False):
+                got_l = anything.cat(got_l)
+            eq, only_code, only_doc = got_l.equivalent(Lang.from_pattern(r'(.*\D)(\d+)$'))
             rep.add(key, an.loc(n), 'ok' if eq else 'violation',
                     pv if eq else f'pattern {pv!r}: ' + (f'{only_doc!r} is no longer split into name and number' if only_doc is not None
                                                          else f'{only_code!r} is now split although it has no <non-digit><digits> shape'))
@@ -967,4 +1015,62 @@ def r93(ctx: Ctx) -> RuleReport:
     path = cfg.path_avoiding([(head, 'F')], {cfg.exit}, lambda nd: nd.id in raises)
     rep.add(f'{fi.fq}: when no entry matches, ModelError is raised', fi.loc(loop), 'violation' if path else 'ok',
             'after the loop the function can return normally (None): dereify_edges then uses None as a triple' if path else '')
+    return rep
+
+
+# ---------------------------------------------------------------------------------------------
+@rule('R95', 'the reachability search behind "unreachable" treats relations as undirected and visits every neighbour of every node it reaches')
+def r95(ctx: Ctx) -> RuleReport:
+    from .graphq import _symmetric_closure, _worklist_closure
+    rep = RuleReport('R95', r95.title, floor=3)
+    fi = ctx.repo.func(M, '_dfs')
+    pm = ctx.repo.parent_map(fi.node)
+    # (1) symmetric closure of the adjacency map
+    inner = [n for n in walk_local(fi.node) if isinstance(n, ast.For) and isinstance(pm.get(id(n)), ast.For) and isinstance(n.iter, ast.Name)]
+    key = f'{fi.fq}: every relation is entered in both directions (weak connectivity)'
+    okc = False
+    for n in inner:
+        if _symmetric_closure(ctx, fi, pm, n, n.iter, 'for'):
+            okc = True
+    if okc:
+        rep.ok(key, fi.loc(inner[0]))
+    else:
+        resets = [n for n in walk_local(fi.node) if isinstance(n, ast.Assign) and isinstance(n.targets[0], ast.Subscript) and isinstance(n.value, ast.Call)
+                  and norm(n.value.func) == 'set' and not n.value.args]
+        unguarded = [n for n in resets if not any(pol and ' not in ' in f for f, pol in facts_ex(ctx, fi, n))]
+        adds = [n for n in walk_local(fi.node) if isinstance(n, ast.Call) and isinstance(n.func, ast.Attribute) and n.func.attr == 'add' and isinstance(n.func.value, ast.Subscript)]
+        if unguarded:
+            rep.violation(key, fi.loc(unguarded[0]), f'`{norm(unguarded[0])}` empties the neighbour set of a node that may already have neighbours: relations recorded before are forgotten, '
+                          f'so triples that are connected to the top are reported as unreachable')
+        elif inner and not adds:
+            rep.violation(key, fi.loc(inner[0]), 'no neighbour is ever added in the reverse direction: only what the top points to is reached, and every node that merely points to it '
+                          '(an inverted relation in the text) is reported as unreachable')
+        else:
+            rep.undecided(key, fi.loc(), 'the symmetric closure `for k, vs in q.items(): for v in vs: q[v].add(k)` was not recognised')
+    # (2) the work-list
+    key = f'{fi.fq}: every unvisited neighbour of a visited node is put on the agenda'
+    found = False
+    for n in walk_local(fi.node):
+        if isinstance(n, ast.Call) and isinstance(n.func, ast.Attribute) and n.func.attr == 'extend' and n.args and isinstance(n.args[0], (ast.GeneratorExp, ast.ListComp)):
+            comp = n.args[0]
+            found = True
+            g0 = comp.generators[0]
+            neg = [c for c in g0.ifs if isinstance(c, ast.Compare) and len(c.ops) == 1 and isinstance(c.ops[0], ast.In) and norm(c.left) == norm(g0.target)]
+            negn = [c for c in g0.ifs if isinstance(c, ast.UnaryOp) and isinstance(c.op, ast.Not) and isinstance(c.operand, ast.Compare)
+                    and isinstance(c.operand.ops[0], ast.NotIn)]
+            if neg or negn:
+                rep.violation(key, fi.loc(n), f'the filter `{norm((neg or negn)[0])}` keeps only nodes that were visited already: nothing new is ever explored, every node but the top is unreachable')
+            elif _worklist_closure(ctx, fi, pm, comp, g0.iter, 'comp'):
+                rep.ok(key, fi.loc(n))
+            else:
+                rep.undecided(key, fi.loc(n), 'work-list shape not recognised')
+    if not found:
+        whiles = [n for n in walk_local(fi.node) if isinstance(n, ast.While)]
+        if whiles and not any(isinstance(x, ast.Call) and isinstance(x.func, ast.Attribute) and x.func.attr in ('extend', 'append', 'add', 'update') for x in ast.walk(whiles[0])):
+            rep.violation(key, fi.loc(whiles[0]), 'the loop that works off the agenda never adds to it: only the top itself is reached')
+        else:
+            rep.undecided(key, fi.loc(), 'no agenda.extend(<neighbours>) found')
+    # (3) the start is the top
+    rets = [n for n in walk_local(fi.node) if isinstance(n, ast.Return) and n.value is not None]
+    rep.add(f'{fi.fq}: returns the set of visited nodes', fi.loc(), 'ok' if rets and all(isinstance(r.value, ast.Name) for r in rets) else 'undecided')
     return rep
